@@ -38,14 +38,20 @@ class SlotTuple(tuple):
     """like a namedtuple: a tuple subclass without an instance __dict__ (__slots__ = ())"""
     __slots__ = ()
 
+    def __bool__(self):        # ... and falsy whatever it holds
+        return False
+
 
 class SlotList(list):
     """a sequence that keeps extra state in __slots__ and has no instance __dict__"""
     __slots__ = ('extra',)
 
+    def __bool__(self):
+        return False
+
 
 # the same abstract sequences realised by such subclasses: children are still the items
-SLOTTED = dict(CLASSES, tuple=SlotTuple, list=SlotList)
+SLOTTED = dict(CLASSES, tuple=SlotTuple, list=SlotList, dict=codec._falsy(dict), obj=codec._falsy(codec.Obj))
 
 
 def spellings(ops, heap):
@@ -113,7 +119,7 @@ def worker(states):
         if len(ops) >= 2:
             out['nontrivial'] += 1
         names = [n for n, _ in spellings(ops, codec.Heap(st['heap'], CLASSES, fns=tspec.FNS))]
-        has_seq = any(c['cls'] in ('list', 'tuple') for c in st['heap'])
+        has_seq = True      # (the second realisation also makes every container falsy)
         variants = [(n, CLASSES) for n in names] + ([(names[-1] + '/slotted', SLOTTED)] if has_seq and names else [])
         for name, classes in variants:
             heap = codec.Heap(st['heap'], classes, fns=tspec.FNS)
